@@ -591,6 +591,17 @@ class Interp(object):
             raise _Break()
         if isinstance(st, ast.Continue):
             raise _Continue()
+        if isinstance(st, ast.Assign) and len(st.targets) == 1 and not isinstance(st.targets[0], ast.Name) and self.helpers is not None and \
+                isinstance(st.value, ast.Call) and self.helpers(st.value) is not None and not getattr(st, '_helper_done', False):
+            # <target> = helper(...): the helper is interpreted in place, the statement then assigns what it returned
+            res = self.call_helper(self.helpers(st.value), self.subst(st.value, state), state, trace)
+            if isinstance(res, bool):
+                res = ast.Constant(value=res)
+            if res is None:
+                res = ast.Constant(value=None)
+            new = ast.copy_location(ast.Assign(targets=st.targets, value=res), st)
+            new._helper_done = True
+            return self.stmt(new, state, trace)
         if isinstance(st, ast.Assign) and len(st.targets) > 1:
             # a = b = V : V is computed once and bound to a, then b takes the same object
             first = ast.copy_location(ast.Assign(targets=[st.targets[0]], value=st.value), st)
